@@ -339,7 +339,19 @@ pub fn run(ctx: &Ctx) {
             proptest::collection::vec(arrival(3, 3, (5000..5012).collect()), 0..80),
         ];
         let caps = prop_oneof![2 => Just((0usize, 0usize)), 1 => (0usize..4, 1usize..4), 1 => (1usize..3, 0usize..2)];
-        run_prop(ctx, &format!("random-{s}"), n / shards, (hist, proptest::sample::select(vec![0u32, 1, 2, 5, 400, 450]), caps), |(h, w, caps)| {
+        // the clock: small numbers, today's Unix time, beyond 2^32 s; and the whole history (times and window) stretched
+        // by 1000 (windows of up to 450 s, times up to 10^11 ms), so that no width of the millisecond arithmetic is
+        // only ever exercised on small values
+        let clock = prop_oneof![3 => Just((0u64, 1u64)), 2 => Just((1_790_000_000_000u64, 1u64)), 1 => Just((4_294_967_296_000u64 + 5, 1u64)), 1 => Just((0u64, 1000u64)), 1 => Just((1_790_000_000_000u64, 1000u64))];
+        run_prop(ctx, &format!("random-{s}"), n / shards, (hist, proptest::sample::select(vec![0u32, 1, 2, 5, 400, 450]), caps, clock), |(h, w, caps, (base, scale))| {
+            let h = &h.iter().map(|a| Arrival { ms: base + a.ms * scale, ..*a }).collect::<Vec<_>>();
+            let w = &(*w * *scale as u32);
+            ctx.class(match (*base, *scale) {
+                (0, 1) => "clock: small times",
+                (_, 1) if *base > 4_000_000_000_000 => "clock: beyond 2^32 s",
+                (_, 1) => "clock: Unix time of the 2020s",
+                _ => "clock: times and window stretched by 1000 (windows up to 450 s)",
+            });
             let monotone = h.windows(2).all(|x| x[0].ms <= x[1].ms);
             ctx.class(if monotone { "random history, non-decreasing arrivals" } else { "random history, unordered arrivals" });
             ctx.class(if caps.1 == 0 { "roomy output queue" } else { "bounded output queue (1-3 slots, drained concurrently)" });
